@@ -1,7 +1,8 @@
 #!/bin/bash
 # try_mutant.sh <patch.diff> <prop> [<prop> ...] : apply a seeded change to /repo, run the given checks, undo the change
 P=$1; shift
+cd /repo
+git apply "$P" 2>/dev/null || patch -p1 --fuzz=3 -s --no-backup-if-mismatch < "$P" || { echo "patch does not apply"; git checkout -- .; git clean -fdq src; exit 2; }
 cd /verif
-git -C /repo apply "$P" || { echo "patch does not apply"; exit 2; }
-for c in "$@"; do python3 check.py $c 2>&1 | grep -E "VIOLATION|KNOWN|quick:|thorough:" | cut -c1-400; done
-git -C /repo checkout -- .
+for c in "$@"; do timeout 1500 python3 check.py $c 2>&1 | grep -E "VIOLATION|quick:|thorough:" | cut -c1-330; done
+git -C /repo checkout -- . ; git -C /repo clean -fdq src
